@@ -417,4 +417,71 @@ theorem C19_shell_shadow_port0_alias_counterexample :
        .client cex4 [3] 2] = [(0, some 0), (1, some 1), (0, some 1)] := by
   decide
 
+/-! ### listener life cycle and glue reached by the I/O-shell scenarios -/
+
+/-- **Routing removed.** After `RemoveUdpFrontend` / `RemoveCluster` the manager's
+    cluster is empty: every client datagram — also one of an established flow —
+    is dropped (`Truncated` if oversized, else `NoBackend`) and neither the flow
+    table, nor any flow, nor the live count changes (replies on established
+    flows are still relayed: `C19_isolated` does not depend on the cluster). -/
+theorem C19_routing_removed_drops_all {s : State} (h : Reachable s) (hc : s.cluster.cluster = "")
+    (src : Addr) (p : Bytes) (now : Nat) :
+    (∃ r, (step s (.client src p now)).2 = [.metric (.dropped r), .drop r] ∧ (r = .truncated ∨ r = .noBackend)) ∧
+    (step s (.client src p now)).1.slots = s.slots ∧ (step s (.client src p now)).1.table = s.table ∧
+    (step s (.client src p now)).1.len = s.len :=
+  routing_removed h hc src p now
+
+/-- `abort_flow` (the shell found no backend, or could not open the upstream
+    socket) on a live flow: exactly that flow is closed, its slot is vacant, the
+    live count drops by one. -/
+theorem C19_abort_closes {s : State} (h : Reachable s) (id : Nat) (f : Flow) (hf : getFlow s id = some f) :
+    Out.closeFlow id ∈ (step s (.abort id)).2 ∧ getFlow (step s (.abort id)).1 id = none ∧
+    (step s (.abort id)).1.len + 1 = s.len :=
+  abort_closes h id f hf
+
+/-- **An aborted admission consumes no cap.** A flow admitted by a client
+    datagram and aborted by the shell right away leaves the live count where it
+    was, the slab slot vacant and no table key pointing at it. -/
+theorem C19_aborted_admission_frees_slot {s : State} (h : Reachable s) (src : Addr) (p : Bytes)
+    (now id : Nat) (cl : String) (k : AKey)
+    (hout : Out.selectBackend id cl k ∈ (step s (.client src p now)).2) :
+    Out.closeFlow id ∈ (step (step s (.client src p now)).1 (.abort id)).2 ∧
+    (step (step s (.client src p now)).1 (.abort id)).1.len = s.len ∧
+    getFlow (step (step s (.client src p now)).1 (.abort id)).1 id = none ∧
+    ∀ key, get? (step (step s (.client src p now)).1 (.abort id)).1.table key ≠ some id :=
+  aborted_admission h src p now id cl k hout
+
+/-- the cap the shell hands to the manager (`effective_max_flows`): an explicit
+    `max_flows` as it is; `0` = auto, never zero flows, never above
+    `max_connections` when that is set, 70 % of the fd limit otherwise -/
+theorem C19_cap_glue (configured rlimit headroom : Nat) :
+    (configured ≠ 0 → effectiveMaxFlows configured rlimit headroom = configured) ∧
+    1 ≤ effectiveMaxFlows 0 rlimit headroom ∧
+    (headroom ≠ 0 → effectiveMaxFlows 0 rlimit headroom ≤ headroom) ∧
+    (headroom = 0 → 0 < rlimit → effectiveMaxFlows 0 rlimit headroom = max (rlimit * 7 / 10) 1) :=
+  cap_glue configured rlimit headroom
+
+/-- the datagram size limit the shell hands to the manager and sizes its receive
+    buffer with (`clamp_max_rx`): never above the configured value nor above
+    `buffer_size`, and the configured value when it fits -/
+theorem C19_rx_glue (configured bufferSize : Nat) :
+    clampMaxRx configured bufferSize ≤ configured ∧
+    (bufferSize ≠ 0 → clampMaxRx configured bufferSize ≤ bufferSize) ∧
+    (configured ≤ bufferSize → clampMaxRx configured bufferSize = configured) :=
+  rx_glue configured bufferSize
+
+/-- non-vacuity: routing removed on `exState` (flow 0 established): its client's
+    datagram is dropped, the reply on flow 0 is still relayed -/
+example : (step (step exState (.setCluster { exCfg with cluster := "" })).1 (.client exC1 [4] 5)).2 =
+      [.metric (.dropped .noBackend), .drop .noBackend] ∧
+    (step (step exState (.setCluster { exCfg with cluster := "" })).1 (.backend 0 [9] 6)).2 =
+      [.metric (.dgramOut 1), .sendToClient 0 exC1 [9]] := by
+  decide
+/-- an admission aborted at once: cap 1, the slot is free for the next client -/
+example : (run (State.new exCfg 1 64) [.client exC1 [1] 0, .abort 0]).len = 0 ∧
+    (step (run (State.new exCfg 1 64) [.client exC1 [1] 0, .abort 0]) (.client exC2 [2] 1)).2 =
+      [.metric .flowCreated, .selectBackend 0 "dns" (affKey exC2 true), .armTimer 401] := by decide
+example : effectiveMaxFlows 0 1024 6 = 6 ∧ effectiveMaxFlows 0 1024 0 = 716 ∧ effectiveMaxFlows 3 1024 6 = 3 ∧
+    clampMaxRx 60000 16393 = 16393 ∧ clampMaxRx 1500 16393 = 1500 := by decide
+
 end Sozu.Udp
